@@ -1,2 +1,70 @@
+"""C18.4 - Python side: the script text reaches the lexer unmodified, and handwritten semantic code reads script content only through
+getText() and typed accessors; token positions flow only into exception messages."""
+import ast
+
+from ..py.index import u, walk_shallow
+from . import common
+
+POS_ATTRS = {"line", "column", "tokenIndex", "getSourceInterval", "getInputStream", "getTokenSource", "start", "stop", "getSymbol", "symbol", "invokingState",
+             "getAltNumber", "depth"}
+SEMANTIC_MODULES = ("listener", "auxiliary")
+
+
 def c18_4(rep):
-    rep.note("C18.4 (position taint in handwritten modules) is added with the Python program model")
+    from . import c10
+    ix = common.index(rep)
+    c10.c10_2(rep, ix, R="C18.4")
+    R = "C18.5"
+    rep.rule(R, "in the handwritten semantic modules, token positions and raw stream objects (line, column, start, stop, tokenIndex, source intervals) flow only into exception messages", floor=4)
+    for q, f in sorted(ix.funcs.items()):
+        if f.mod not in SEMANTIC_MODULES:
+            continue
+        fn = f.node
+        tainted = set()
+        changed = True
+        stmts = [n for n in ast.walk(fn) if isinstance(n, ast.stmt)]
+        while changed:
+            changed = False
+            for s in stmts:
+                if isinstance(s, ast.Assign) and len(s.targets) == 1 and isinstance(s.targets[0], ast.Name):
+                    if pos_expr(s.value, tainted) and s.targets[0].id not in tainted:
+                        tainted.add(s.targets[0].id)
+                        changed = True
+        for s in stmts:
+            if isinstance(s, (ast.If, ast.For, ast.While, ast.Try, ast.With, ast.FunctionDef)):
+                heads = [s.test] if isinstance(s, (ast.If, ast.While)) else ([s.iter] if isinstance(s, ast.For) else [])
+            else:
+                heads = [s]
+            for h in heads:
+                uses = [n for n in ast.walk(h) if (isinstance(n, ast.Attribute) and n.attr in POS_ATTRS and looks_like_tree(n.value, tainted)) or
+                        (isinstance(n, ast.Name) and n.id in tainted and isinstance(n.ctx, ast.Load))]
+                if not uses:
+                    continue
+                txt = " ".join(u(h).split())[:100]
+                if isinstance(s, ast.Raise):
+                    rep.ok(R, ix.site(f, s), "`%s`: position used in an exception message" % txt)
+                elif isinstance(s, ast.Assign) and len(s.targets) == 1 and isinstance(s.targets[0], ast.Name) and s.targets[0].id in tainted:
+                    rep.ok(R, ix.site(f, s), "`%s`: position kept in a local that only reaches exception messages" % txt)
+                else:
+                    rep.bad(R, ix.site(f, s), "`%s` does not let a token position influence the program" % txt, "position-dependent value used outside an exception message", key="%s|%s" % (q, txt))
+
+
+def looks_like_tree(e, tainted):
+    """receiver is a parse-tree object: ctx / child / expr / accessor call result / tainted token"""
+    if isinstance(e, ast.Name):
+        return e.id in tainted or e.id in ("ctx", "expr", "child", "arg", "token", "c", "i", "j", "m", "v", "number", "function", "arguments", "nonnumeric", "statement")
+    if isinstance(e, ast.Call) and isinstance(e.func, ast.Attribute):
+        return True
+    if isinstance(e, ast.Attribute):
+        return looks_like_tree(e.value, tainted)
+    return False
+
+
+def pos_expr(e, tainted):
+    if isinstance(e, ast.Attribute) and e.attr in POS_ATTRS and looks_like_tree(e.value, tainted):
+        return True
+    if isinstance(e, ast.Name) and e.id in tainted:
+        return True
+    if isinstance(e, ast.Call) and isinstance(e.func, ast.Attribute) and e.func.attr in POS_ATTRS and looks_like_tree(e.func.value, tainted):
+        return True
+    return False
